@@ -36,7 +36,8 @@ Inductive err :=
 | EBlocked       (* bank: "... is not allowed to receive funds" *)
 | EAddr          (* bech32 parse error of the new admin *)
 | EMeta          (* banktypes.Metadata.Validate *)
-| EPanic.        (* math.Int overflow / negative coin: a Go panic, recovered by baseapp's runTx *)
+| EPanic         (* math.Int overflow / negative coin: a Go panic, recovered by baseapp's runTx *)
+| EBadReq.       (* wasm bindings: wasmvmtypes.InvalidRequest (burn_from_address / metadata base) *)
 
 Inductive res (A : Type) := Ok (a : A) | Err (e : err).
 Arguments Ok {A} a.
